@@ -234,6 +234,26 @@ def fill(claim, na):
         "Trusted: mmCIF item semantics frozen in ATOM_SITE; name-based call resolution inside convert.py.",
         "DESIGN.md section 2, C04",
     )
-    for p in ["C05", "C08", "C09", "C10",
+    claim(
+        "C05",
+        "registry/table evaluation from the lowered encoding.pyx, classification of every narrowing "
+        "conversion inside encode() (checked / bounded by construction / unchecked), dominance of "
+        "the range-and-finiteness guard over the fixed point encoding in compress.py, interval "
+        "facts of integer down-casts (custom ast analysis)",
+        "Decides registry/table agreement and 'values the target cannot hold are rejected or kept, "
+        "never silently altered' as a cast discipline: kind->class and class->kind registries are "
+        "mutual inverses over exactly the concrete Encoding subclasses, each with encode/decode; "
+        "TypeCode values, dtypes and the reverse table follow the BinaryCIF specification; "
+        "parameter names serialise to the specification's camelCase; chains decode in reverse "
+        "order; inside every encode() a conversion to a fixed-width integer goes through "
+        "_safe_cast or is bounded by construction (three known findings: FixedPoint, Delta, "
+        "IntegerPacking cast unchecked); _safe_cast tests both bounds before converting and "
+        "refuses float->int; compress() tests finiteness and |x|*factor < int32 max before the "
+        "fixed point encoding, uses the tested factor and falls back losslessly; the integer "
+        "down-cast tests minimum and maximum. Not decided: numeric invertibility within tolerance.",
+        "Trusted: argsort/searchsorted results are bounded by the array length; Cython lowering.",
+        "DESIGN.md section 2, C05",
+    )
+    for p in ["C08", "C08", "C09", "C10",
               "C11", "C14", "C15", "C16", "C19"]:
         na(p, PENDING)
